@@ -4,8 +4,8 @@
         /// a variant is returned only for its own control field, with what its packet type decodes on its own
         open spec fn parse_ok(b: Seq<u8>, v: Self) -> bool {
             match v {
-                Self::CVendFunctionsEnhancedSystemInformationCompletion(x) => b.len() >= 2 && b[0] == 6 && b[1] == 15 && <crate::packets::CVendFunctionsEnhancedSystemInformationCompletion as zvt_builder::ZvtSerializer>::zd_ok(b, x),
-                Self::Abort(x) => b.len() >= 2 && b[0] == 6 && b[1] == 30 && <crate::packets::Abort as zvt_builder::ZvtSerializer>::zd_ok(b, x),
+                Self::CVendFunctionsEnhancedSystemInformationCompletion(x) => b.len() >= 2 && b[0] == 6 && b[1] == 15 && zvt_builder::tid_of(x) == 10 /* feig::packets::CVendFunctionsEnhancedSystemInformationCompletion */ && zvt_builder::zd_ok_of(b, x),
+                Self::Abort(x) => b.len() >= 2 && b[0] == 6 && b[1] == 30 && zvt_builder::tid_of(x) == 4 /* packets::Abort */ && zvt_builder::zd_ok_of(b, x),
             }
         }
         /// the command's reply set
@@ -19,9 +19,9 @@
         /// a variant is returned only for its own control field, with what its packet type decodes on its own
         open spec fn parse_ok(b: Seq<u8>, v: Self) -> bool {
             match v {
-                Self::CompletionData(x) => b.len() >= 2 && b[0] == 6 && b[1] == 15 && <crate::packets::CompletionData as zvt_builder::ZvtSerializer>::zd_ok(b, x),
-                Self::RequestForData(x) => b.len() >= 2 && b[0] == 4 && b[1] == 12 && <crate::packets::RequestForData as zvt_builder::ZvtSerializer>::zd_ok(b, x),
-                Self::Abort(x) => b.len() >= 2 && b[0] == 6 && b[1] == 30 && <crate::packets::Abort as zvt_builder::ZvtSerializer>::zd_ok(b, x),
+                Self::CompletionData(x) => b.len() >= 2 && b[0] == 6 && b[1] == 15 && zvt_builder::tid_of(x) == 3 /* packets::CompletionData */ && zvt_builder::zd_ok_of(b, x),
+                Self::RequestForData(x) => b.len() >= 2 && b[0] == 4 && b[1] == 12 && zvt_builder::tid_of(x) == 9 /* feig::packets::RequestForData */ && zvt_builder::zd_ok_of(b, x),
+                Self::Abort(x) => b.len() >= 2 && b[0] == 6 && b[1] == 30 && zvt_builder::tid_of(x) == 4 /* packets::Abort */ && zvt_builder::zd_ok_of(b, x),
             }
         }
         /// the command's reply set
@@ -35,7 +35,7 @@
         /// a variant is returned only for its own control field, with what its packet type decodes on its own
         open spec fn parse_ok(b: Seq<u8>, v: Self) -> bool {
             match v {
-                Self::CompletionData(x) => b.len() >= 2 && b[0] == 6 && b[1] == 15 && <crate::packets::CompletionData as zvt_builder::ZvtSerializer>::zd_ok(b, x),
+                Self::CompletionData(x) => b.len() >= 2 && b[0] == 6 && b[1] == 15 && zvt_builder::tid_of(x) == 3 /* packets::CompletionData */ && zvt_builder::zd_ok_of(b, x),
             }
         }
         /// the command's reply set
@@ -49,8 +49,8 @@
         /// a variant is returned only for its own control field, with what its packet type decodes on its own
         open spec fn parse_ok(b: Seq<u8>, v: Self) -> bool {
             match v {
-                Self::CompletionData(x) => b.len() >= 2 && b[0] == 6 && b[1] == 15 && <crate::packets::CompletionData as zvt_builder::ZvtSerializer>::zd_ok(b, x),
-                Self::Abort(x) => b.len() >= 2 && b[0] == 6 && b[1] == 30 && <crate::packets::Abort as zvt_builder::ZvtSerializer>::zd_ok(b, x),
+                Self::CompletionData(x) => b.len() >= 2 && b[0] == 6 && b[1] == 15 && zvt_builder::tid_of(x) == 3 /* packets::CompletionData */ && zvt_builder::zd_ok_of(b, x),
+                Self::Abort(x) => b.len() >= 2 && b[0] == 6 && b[1] == 30 && zvt_builder::tid_of(x) == 4 /* packets::Abort */ && zvt_builder::zd_ok_of(b, x),
             }
         }
         /// the command's reply set
